@@ -273,6 +273,39 @@ theorem dict_json_roundtrips (dflt : String → List (String × Scal V)) (t : PN
         show renamePN _ (canonPN dflt (dictRTn dflt t base step (n + 1))) = _
         rw [ih, canonPN_rename dflt σ _ (by rw [pnLoadOrder_canon]; exact hσ), canonPN_idem, renamePN_comp]
 
+/-- **the same assertions**: supplying the same value for each parameter gives every assertion of the reloaded
+model - at any depth, chained or not, over arithmetic relations or not - the verdict it had before, so the
+reloaded model raises `FitException` for exactly the same vectors. All compositions. -/
+theorem dict_json_same_assertion_verdicts [Inhabited V] (ops : Ops V) (sig : String → List String)
+    (dflt : String → List (String × Scal V)) (t : PN V) (base : Nat) (ρ ρ' : Nat → Inst V)
+    (hρ : ∀ i, ρ' (rtSigma t base i) = ρ i) :
+    assertVerdicts ops sig ρ' (dictRT dflt t base) = assertVerdicts ops sig ρ t := by
+  unfold assertVerdicts
+  rw [dictRT_eq, pnAsserts_rename, pnAsserts_canon]
+  exact verdicts_reload_list ops sig dflt _ ρ ρ' hρ _
+
+/-! ### pickle / dill: consequences of the stated assumption only
+
+The assumption (`AFModel/DictJson.lean`, checked on the real unpickled object on every run): the attribute
+tree is rebuilt and every `id` restored verbatim, i.e. the round trip is the renaming by the identity map. -/
+
+/-- under the assumption a pickle round trip returns the very same composition … -/
+theorem pickle_is_identity (t : PN V) : pickleRT t = t := renamePN_id t
+
+/-- … hence the parameter order (paths in order of prior id), the count and every instance are unchanged -/
+theorem pickle_keeps_order (sig : String → List String) (t : PN V) :
+    pathPriors (erase sig (pickleRT t)) = pathPriors (erase sig t) ∧
+    count (erase sig (pickleRT t)) = count (erase sig t) := by
+  rw [pickle_is_identity]; exact ⟨rfl, rfl⟩
+
+/-- any route that satisfies the assumption keeps the composition through any number of round trips -/
+theorem identity_copy_roundtrips (f : PN V → PN V) (hf : ∀ t, f t = renamePN (fun i => i) t) :
+    ∀ (n : Nat) (t : PN V), Nat.repeat f n t = t
+  | 0, _ => rfl
+  | n + 1, t => by
+      show f (Nat.repeat f n t) = t
+      rw [identity_copy_roundtrips f hf n t, hf t, renamePN_id]
+
 /-! ### non-vacuity: prior 7 shared between an argument, a tuple member, an arithmetic relation and a chained
 assertion; prior 5 met first inside the child's assertion and only later as an argument; a fixed component -/
 
@@ -302,6 +335,11 @@ example : paths (erase (fun _ => []) (dictRT witnessDflt witnessPN 100)) =
     [["g", "a"], ["h", "pos", "pos_1"], ["h", "r", "left_"], ["h", "r", "right_"], ["h", "pos", "pos_0"]] := by decide
 example : pnLoadOrder (dictRTn witnessDflt witnessPN 100 50 3) = [200, 201, 200, 200, 202, 200, 200, 201, 202, 203] := by
   decide
+/-- with `p7 = 1, p5 = 2, p3 = 4, p9 = 3`: `g`'s chain `p5 < p7 < 3` fails, the root's `p3 <= p9` fails too -/
+example : assertVerdicts (V := Nat) ⟨fun _ a b => a + b, fun _ a => a, fun a b => a ≤ b, fun a b => a < b, fun a b => a ≤ b⟩
+    (fun _ => []) (fun i => .num (if i = 7 then 1 else if i = 5 then 2 else if i = 3 then 4 else 3)) witnessPN = [false, false] := by
+  decide
+example : Nat.repeat pickleRT 3 witnessPN = witnessPN := identity_copy_roundtrips pickleRT (fun _ => rfl) 3 witnessPN
 example : NoArith (erase (fun _ => []) (PN.model "lib.P2" [("a", .prior 7 ⟨.gaussian, 0, 1, 2, 3⟩), ("b", .prior 7 ⟨.gaussian, 0, 1, 2, 3⟩)]
     [.arith "GreaterThanLessThanAssertion" "lower" "greater" (.prior 5 ⟨.uniform, 0, 1, 0, 0⟩) (.prior 7 ⟨.gaussian, 0, 1, 2, 3⟩)] : PN Nat)) := by
   simp [erase, eraseAttrs, NoArith, NoArithAttrs]
